@@ -82,6 +82,13 @@ struct RecVisitor
         val[n] = probe(v, 0);
         ptr[n] = nullptr;
     }
+    template<typename T, typename = typename std::enable_if<std::is_arithmetic<T>::value>::type>
+    void value_of(T v, int)
+    {
+        // a raw primitive (what a constant's accessor returns): recorded so that a callback for it is visible to the contract
+        val[n] = bits(v);
+        ptr[n] = nullptr;
+    }
     template<typename T>
     void value_of(T v, long)
     {
